@@ -1760,29 +1760,27 @@ class DynDiGraph(nx.DiGraph):
         H.add_nodes_from(self)
 
         if reciprocal is True:
-            for u in self._node:
-                for v in self._node:
-                    if u >= v:
-                        try:
-                            outc = self._succ[u][v]['t']
-                            intc = self._pred[u][v]['t']
-                            for o in outc:
-                                r = set(range(o[0], o[1] + 1))
-                                for i in intc:
-                                    r2 = set(range(i[0], i[1] + 1))
-                                    inter = list(r & r2)
-                                    if len(inter) == 1:
-                                        H.add_interaction(u, v, t=inter[0])
-                                    elif len(inter) > 1:
-                                        H.add_interaction(u, v, t=inter[0], e=inter[-1])
-
-                        except Exception:
-                            pass
+            done = set()
+            for u, v, data in self.out_interactions_iter():
+                if (v, u) in done or u not in self._succ[v]:
+                    continue
+                done.add((u, v))
+                # instants at which both directions are present
+                for o in data['t']:
+                    for i in self._succ[v][u]['t']:
+                        first, last = max(o[0], i[0]), min(o[1], i[1])
+                        if first <= last:
+                            H.add_interaction(u, v, t=first, e=last + 1)
 
         else:
-            for it in self.interactions_iter():
-                for t in it[2]['t']:
-                    H.add_interaction(it[0], it[1], t=t[0], e=t[1])
+            # the two directions of a pair are merged, earliest interval first
+            spans = {}
+            for u, v, data in self.out_interactions_iter():
+                key = (v, u) if (v, u) in spans else (u, v)
+                spans.setdefault(key, []).extend(data['t'])
+            for (u, v), intervals in spans.items():
+                for t in sorted(intervals):
+                    H.add_interaction(u, v, t=t[0], e=t[1] + 1)
 
         H.graph = deepcopy(self.graph)
         H._node = deepcopy(self._node)
